@@ -20,8 +20,11 @@ import (
 	"google.golang.org/protobuf/types/known/structpb"
 	"google.golang.org/protobuf/types/known/wrapperspb"
 
+	extensions "istio.io/api/extensions/v1alpha1"
 	networking "istio.io/api/networking/v1alpha3"
+	networkingv1beta1 "istio.io/api/networking/v1beta1"
 	security "istio.io/api/security/v1beta1"
+	telemetry "istio.io/api/telemetry/v1alpha1"
 	typev1beta1 "istio.io/api/type/v1beta1"
 	"verifharness/internal/wire"
 )
@@ -34,6 +37,8 @@ var (
 		"a.default", "a.default.svc", "a.default.svc.cluster.local", "b.ns1.svc.cluster.local", "b.ns1",
 		"x.local", "*.local", "*.default.svc.cluster.local", "*.cluster.local", "a", "foo.com.cluster.local", "cluster.local",
 		"svc.cluster.local", "default.svc.cluster.local", "a.ns1.svc.cluster.local",
+		// host names are case-insensitive and validation accepts upper case
+		"Foo.com", "API.example.org", "Bar.Foo.com",
 	}
 	portPool = []portDesc{
 		{"http", 80, "HTTP"}, {"tcp", 80, "TCP"}, {"auto", 80, ""}, {"http-alt", 8080, "HTTP"}, {"tcp-alt", 8080, "TCP"},
@@ -41,10 +46,16 @@ var (
 		{"tcp-9000", 9000, "TCP"}, {"http-9000", 9000, "HTTP"}, {"grpc", 7070, "GRPC"}, {"http2", 7070, "HTTP2"},
 		{"mysql", 3306, "MySQL"}, {"tcp-3306", 3306, "TCP"}, {"http-3306", 3306, "HTTP"}, {"mongo", 27017, "Mongo"},
 		{"auto-90", 90, ""}, {"redis", 6379, "Redis"}, {"udp", 53, "UDP"},
-		{"http-15090", 15090, "HTTP"}, {"http-15021", 15021, "HTTP"},
 		{"http-15443", 15443, "HTTP"}, {"tls-15443", 15443, "TLS"},
-		// 15001 / 15006 / 15008 (the sidecar's own listeners) are exercised by corpus cases only: a service on
-		// them is the known finding `addr-unique`, which would otherwise shadow everything else in its mesh
+	}
+	// the proxy's own ports: virtualOutbound 15001, virtualInbound 15006, HBONE 15008, status 15021, prometheus 15090.
+	// HTTP ports on them are guarded (conflictWithReservedListener); non-HTTP ports of address-less services are the
+	// known finding `addr-unique`. Drawn in 1 of 10 port lists of the valid cases, guarded and unguarded side equally often.
+	reservedPool = []portDesc{
+		{"http-15001", 15001, "HTTP"}, {"http-15006", 15006, "HTTP"}, {"grpc-15006", 15006, "GRPC"}, {"http-15008", 15008, "HTTP"},
+		{"tcp-15001", 15001, "TCP"}, {"tcp-15006", 15006, "TCP"}, {"tcp-15008", 15008, "TCP"}, {"auto-15006", 15006, ""},
+		{"tcp-15090", 15090, "TCP"}, {"tcp-15021", 15021, "TCP"}, {"tls-15001", 15001, "TLS"},
+		{"http-15090", 15090, "HTTP"}, {"http-15021", 15021, "HTTP"}, {"http2-15090", 15090, "HTTP2"},
 	}
 	labelSets = []map[string]string{
 		{"app": "a"}, {"app": "a", "version": "v1"}, {"app": "a", "version": "v2"}, {"app": "b"}, {"app": "b", "version": "v1"},
@@ -78,6 +89,10 @@ type gen struct {
 	kube       []string
 	gwTarget   map[int]int
 	tlsServers []tlsServerRef
+	dpushes    []dpushDesc
+	crowdPort  uint32
+	drByHost   map[string][2]string
+	force      int          // index into the mutation catalogue of the object's kind, -1 = random
 	vsRoutes   []vsRouteRef // named http routes of VirtualServices on hosts that are services: targets for route-level EnvoyFilters
 }
 
@@ -91,10 +106,11 @@ type vsRouteRef struct {
 	host  string
 	port  int
 	route string
+	multi bool // another host of the same VirtualService is a service with this port too: their virtual hosts share one route list
 }
 
 func newGen(r *wire.Rng, malformed bool) *gen {
-	return &gen{r: r, malformed: malformed, opts: map[string]string{}, ts: 1000, names: map[string]int{},
+	return &gen{r: r, malformed: malformed, force: -1, drByHost: map[string][2]string{}, opts: map[string]string{}, ts: 1000, names: map[string]int{},
 		hostPorts: map[string][]int{}, subsets: map[string][]string{}, gwHosts: map[string][]string{}}
 }
 
@@ -126,6 +142,14 @@ func (g *gen) ports(max int) []portDesc {
 	n := 1 + g.r.Intn(max)
 	var out []portDesc
 	usedNum, usedName := map[int]bool{}, map[string]bool{}
+	if !g.malformed && g.ch(1, 10) { // not in malformed cases: a finding there is attributed to the damaged object
+		p := reservedPool[g.r.Intn(len(reservedPool))]
+		for http := g.ch(1, 2); http != (p.Proto == "HTTP" || p.Proto == "HTTP2" || p.Proto == "GRPC"); { // both sides of the guard equally often
+			p = reservedPool[g.r.Intn(len(reservedPool))]
+		}
+		usedNum[p.Port], usedName[p.Name] = true, true
+		out = append(out, p)
+	}
 	for len(out) < n {
 		p := portPool[g.r.Intn(len(portPool))]
 		if g.ch(7, 10) {
@@ -501,8 +525,15 @@ func (g *gen) virtualService() {
 			vs.Hosts = append(vs.Hosts, h)
 		}
 	}
+	if g.ch(1, 10) && !strings.HasPrefix(vs.Hosts[0], "*") && len(vs.Hosts[0]) > 1 {
+		vs.Hosts = append(vs.Hosts, strings.ToUpper(vs.Hosts[0][:1])+vs.Hosts[0][1:])
+	}
 	var gws []string
-	switch g.r.Intn(6) {
+	pickGw := g.r.Intn(6)
+	if g.crowdPort != 0 && len(g.gateways) > 0 && g.ch(2, 3) {
+		pickGw = 5
+	}
+	switch pickGw {
 	case 0, 1, 2: // mesh only (default)
 		if g.ch(1, 3) {
 			vs.Gateways = []string{"mesh"}
@@ -526,9 +557,12 @@ func (g *gen) virtualService() {
 					h = h[i+1:]
 				}
 				if h == "*" {
-					h = g.pick([]string{"*", "foo.com", "bar.foo.com", "*.foo.com"})
+					h = g.pick([]string{"*", "foo.com", "bar.foo.com", "*.foo.com", "Foo.com"})
 				}
 				vs.Hosts = []string{h}
+				if g.ch(1, 6) && !strings.HasPrefix(h, "*") {
+					vs.Hosts = append(vs.Hosts, strings.ToUpper(h[:1])+h[1:]) // the same host once more, in another letter case
+				}
 			}
 		} else {
 			vs.Gateways = []string{g.pick([]string{"istio-system/nosuch", "default/gw1"})}
@@ -536,6 +570,15 @@ func (g *gen) virtualService() {
 		}
 	}
 	kind := g.r.Intn(10)
+	boundToGateway := len(gws) > 0 && gws[0] != "mesh"
+	if g.crowdPort != 0 && boundToGateway && g.ch(2, 3) {
+		// crowded gateway port: give its plaintext TCP / passthrough servers something to route (without a route a
+		// server yields no filter chain at all): a tcp route and a tls route that apply to every port
+		kind = 9
+		if g.ch(1, 2) {
+			vs.Hosts = []string{g.pick([]string{"*", "foo.com", "api.example.org"})}
+		}
+	}
 	if kind < 8 {
 		nr := 1 + g.r.Intn(3)
 		for i := 0; i < nr; i++ {
@@ -569,7 +612,11 @@ func (g *gen) virtualService() {
 		nt := 1 + g.r.Intn(2)
 		for i := 0; i < nt; i++ {
 			tr := &networking.TCPRoute{Route: []*networking.RouteDestination{{Destination: g.destination(vs.Hosts[0])}}}
-			if g.ch(2, 3) {
+			if g.crowdPort != 0 && boundToGateway {
+				if g.ch(1, 2) {
+					tr.Match = []*networking.L4MatchAttributes{{Port: g.crowdPort}}
+				}
+			} else if g.ch(2, 3) {
 				m := &networking.L4MatchAttributes{Port: uint32(portPool[g.r.Intn(12)].Port)}
 				if g.ch(1, 4) {
 					m.DestinationSubnets = []string{g.pick([]string{"10.9.0.0/16", "10.0.0.1"})}
@@ -587,10 +634,16 @@ func (g *gen) virtualService() {
 		}
 	}
 	vs.ExportTo = g.exportTo()
+	onPort := map[int]int{}
+	for _, h := range vs.Hosts {
+		for _, p := range g.hostPorts[h] {
+			onPort[p]++
+		}
+	}
 	for _, h := range vs.Hosts {
 		for _, p := range g.hostPorts[h] {
 			for _, r := range vs.Http {
-				g.vsRoutes = append(g.vsRoutes, vsRouteRef{h, p, r.Name})
+				g.vsRoutes = append(g.vsRoutes, vsRouteRef{h, p, r.Name, onPort[p] > 1})
 			}
 		}
 	}
@@ -674,10 +727,12 @@ func (g *gen) destinationRule() {
 		g.subsets[h] = append(g.subsets[h], n)
 	}
 	dr.ExportTo = g.exportTo()
+	drNs, drName := g.ns(), g.name("dr")
+	g.drByHost[h] = [2]string{drName, drNs}
 	if g.ch(1, 8) {
 		dr.WorkloadSelector = &typev1beta1.WorkloadSelector{MatchLabels: map[string]string{"app": g.pick([]string{"a", "b"})}}
 	}
-	g.add("DestinationRule", g.ns(), g.name("dr"), dr, nil)
+	g.add("DestinationRule", drNs, drName, dr, nil)
 }
 
 // ---------------------------------------------------------------- Gateway
@@ -741,7 +796,7 @@ func (g *gen) gateway() {
 		nh := 1 + g.r.Intn(2)
 		seen := map[string]bool{}
 		for j := 0; j < nh; j++ {
-			h := g.pick([]string{"*", "foo.com", "bar.foo.com", "*.foo.com", "api.example.org", "*.example.org", "a.default.svc.cluster.local"})
+			h := g.pick([]string{"*", "foo.com", "bar.foo.com", "*.foo.com", "api.example.org", "*.example.org", "a.default.svc.cluster.local", "Foo.com", "API.example.org"})
 			switch g.r.Intn(5) {
 			case 0:
 				h = "default/" + h
@@ -779,8 +834,85 @@ func (g *gen) gateway() {
 			}
 			g.tlsServers = append(g.tlsServers, tlsServerRef{append([]string{}, s.Hosts...), s.Bind, s.Port.Number})
 		}
+		// crowded port: in some meshes (g.crowdPort != 0) most servers of all Gateways sit on ONE port number with mixed
+		// protocols, TLS modes and a few binds, in any order - the neighbourhood of the server-merge rules (plaintext vs
+		// TLS on one port, HTTP servers merged per port and bind, SNI duplicates, AUTO_PASSTHROUGH overlaps)
+		if g.crowdPort != 0 && g.ch(3, 4) {
+			pn := s.Port.Name
+			switch []int{0, 0, 0, 1, 2, 3, 3, 4, 7, 4, 5, 6}[g.r.Intn(12)] {
+			case 0:
+				s.Port = &networking.Port{Protocol: "HTTPS"}
+				s.Tls = &networking.ServerTLSSettings{Mode: networking.ServerTLSSettings_SIMPLE, CredentialName: g.pick(credNames)}
+			case 1:
+				s.Port = &networking.Port{Protocol: "TLS"}
+				s.Tls = &networking.ServerTLSSettings{Mode: networking.ServerTLSSettings_PASSTHROUGH}
+			case 2:
+				s.Port = &networking.Port{Protocol: "TLS"}
+				s.Tls = &networking.ServerTLSSettings{Mode: networking.ServerTLSSettings_AUTO_PASSTHROUGH}
+			case 3:
+				s.Port = &networking.Port{Protocol: "TCP"}
+				s.Tls = nil
+			case 4:
+				s.Port = &networking.Port{Protocol: g.pick([]string{"HTTP", "HTTP2", "GRPC"})}
+				s.Tls = nil
+			case 5:
+				s.Port = &networking.Port{Protocol: g.pick([]string{"MONGO", "TCP"})}
+				s.Tls = nil
+			case 6:
+				s.Port = &networking.Port{Protocol: "TLS"}
+				s.Tls = &networking.ServerTLSSettings{Mode: networking.ServerTLSSettings_SIMPLE, CredentialName: g.pick(credNames)}
+			case 7:
+				s.Port = &networking.Port{Protocol: "HTTP"}
+				s.Tls = nil
+			}
+			s.Port.Name = pn
+			s.Port.Number = g.crowdPort
+			if g.crowdPort == 443 && g.ch(1, 4) {
+				s.Port.Number = 8443
+			}
+			s.Bind = g.pick([]string{"", "", "", "10.2.0.1", "127.0.0.1"})
+			s.Hosts = nil
+			for j, k := 0, 1+g.r.Intn(2); j < k; j++ {
+				h := g.pick([]string{"*", "*", "*", "foo.com", "*.example.org", "api.example.org", "Foo.com"})
+				h = g.pick([]string{"", "", "./", "default/", "*/"}) + h
+				if len(s.Hosts) == 0 || s.Hosts[0] != h {
+					s.Hosts = append(s.Hosts, h)
+				}
+			}
+		}
 		gw.Servers = append(gw.Servers, s)
 		g.gwHosts[key] = append(g.gwHosts[key], s.Hosts...)
+	}
+	// rule 3 of the server merge ("a plaintext and a TLS server never share a port and bind"): a pair of one plaintext and one
+	// TLS server, both for every host, on the crowded port and one bind - in either order
+	if g.crowdPort != 0 && g.ch(1, 2) {
+		bind := g.pick([]string{"", "", "10.2.0.1"})
+		plain := &networking.Server{
+			Port:  &networking.Port{Number: g.crowdPort, Name: "pair-plain", Protocol: g.pick([]string{"TCP", "TCP", "MONGO", "HTTP"})},
+			Hosts: []string{"*"}, Bind: bind,
+		}
+		tls := &networking.Server{
+			Port:  &networking.Port{Number: g.crowdPort, Name: "pair-tls", Protocol: "HTTPS"},
+			Hosts: []string{g.pick([]string{"*", "*", "foo.com"})}, Bind: bind,
+			Tls: &networking.ServerTLSSettings{Mode: networking.ServerTLSSettings_SIMPLE, CredentialName: g.pick(credNames)},
+		}
+		switch g.r.Intn(4) {
+		case 0:
+			tls.Port.Protocol = "TLS"
+		case 1:
+			tls.Port.Protocol = "TLS"
+			tls.Tls = &networking.ServerTLSSettings{Mode: networking.ServerTLSSettings_PASSTHROUGH}
+		}
+		pair := []*networking.Server{plain, tls}
+		if g.ch(1, 2) {
+			pair = []*networking.Server{tls, plain}
+		}
+		if g.ch(1, 2) {
+			gw.Servers = append(pair, gw.Servers...)
+		} else {
+			gw.Servers = append(gw.Servers, pair...)
+		}
+		g.gwHosts[key] = append(g.gwHosts[key], "*")
 	}
 	g.add("Gateway", ns, name, gw, nil)
 	g.gateways = append(g.gateways, key)
@@ -868,7 +1000,7 @@ func (g *gen) envoyFilter() {
 		p := &networking.EnvoyFilter_EnvoyConfigObjectPatch{Match: &networking.EnvoyFilter_EnvoyConfigObjectMatch{Context: ctx}, Patch: &networking.EnvoyFilter_Patch{}}
 		g.efSeq++
 		n := strconv.Itoa(g.efSeq)
-		switch g.r.Intn(11) {
+		switch []int{0, 1, 2, 3, 4, 5, 6, 7, 8, 9, 10, 9, 10}[g.r.Intn(13)] {
 		case 0: // add a cluster (two filters may add the same one)
 			p.ApplyTo = networking.EnvoyFilter_CLUSTER
 			p.Patch.Operation = networking.EnvoyFilter_Patch_ADD
@@ -923,6 +1055,9 @@ func (g *gen) envoyFilter() {
 			ref := vsRouteRef{host: g.someHost(), port: 80}
 			if len(g.vsRoutes) > 0 {
 				ref = g.vsRoutes[g.r.Intn(len(g.vsRoutes))]
+				for try := 0; try < 8 && !ref.multi && g.ch(3, 4); try++ { // prefer virtual hosts that share their route list
+					ref = g.vsRoutes[g.r.Intn(len(g.vsRoutes))]
+				}
 			}
 			vh := &networking.EnvoyFilter_RouteConfigurationMatch_VirtualHostMatch{Name: ref.host + ":" + strconv.Itoa(ref.port)}
 			p.Match.Context = networking.EnvoyFilter_SIDECAR_OUTBOUND
@@ -1007,6 +1142,12 @@ func (g *gen) proxies() {
 		if g.ch(1, 6) {
 			p.Meta = append(p.Meta, "hbone=1")
 		}
+		if g.ch(2, 3) { // what the injected sidecar reports: its bootstrap listens on these ports
+			p.Meta = append(p.Meta, "status=15021", "prom=15090")
+		}
+		if g.ch(1, 6) {
+			p.Meta = append(p.Meta, "proxycfg="+g.pick([]string{"stats", "headers", "concurrency"}))
+		}
 		g.pushes = append(g.pushes, p)
 	}
 	nr := 1 + g.r.Intn(2)
@@ -1034,6 +1175,176 @@ func (g *gen) proxies() {
 	}
 }
 
+// incremental appends, for about a third of the proxies, an incremental push (`dpush`) for one config key on top of the
+// full one: a service (kind ServiceEntry: delta CDS + partial EDS), a DestinationRule or a VirtualService.
+func (g *gen) incremental() {
+	var keys [][3]string
+	for h := range g.hostPorts {
+		_ = h
+	}
+	for _, h := range g.allHosts {
+		keys = append(keys, [3]string{"ServiceEntry", h, g.pick(namespaces)})
+	}
+	for _, s := range g.svcs {
+		keys = append(keys, [3]string{"ServiceEntry", s.Host, s.Ns})
+	}
+	for _, c := range g.cfgs {
+		switch c.Kind {
+		case "DestinationRule", "VirtualService", "PeerAuthentication", "Sidecar", "EnvoyFilter", "Gateway":
+			keys = append(keys, [3]string{c.Kind, c.Name, c.Ns})
+		}
+	}
+	if len(keys) == 0 {
+		return
+	}
+	for _, p := range g.pushes {
+		if g.ch(1, 3) {
+			k := keys[g.r.Intn(len(keys))]
+			d := dpushDesc{p: p, keys: [][3]string{k}}
+			// often a second key in the same push: the DestinationRule of that service, or anything else
+			if dr, ok := g.drByHost[k[1]]; ok && k[0] == "ServiceEntry" && g.ch(2, 3) {
+				d.keys = append(d.keys, [3]string{"DestinationRule", dr[0], dr[1]})
+			} else if g.ch(1, 4) {
+				d.keys = append(d.keys, keys[g.r.Intn(len(keys))])
+			}
+			g.dpushes = append(g.dpushes, d)
+		}
+	}
+}
+
+type dpushDesc struct {
+	p    pushDesc
+	keys [][3]string
+}
+
+// ---------------------------------------------------------------- security / telemetry / extension objects
+
+func (g *gen) selector() *typev1beta1.WorkloadSelector {
+	if g.ch(1, 3) {
+		return nil
+	}
+	return &typev1beta1.WorkloadSelector{MatchLabels: map[string]string{"app": g.pick([]string{"a", "b", "c"})}}
+}
+
+func (g *gen) policyNs() string { return g.pick([]string{"istio-system", "default", "default", "ns1"}) }
+
+func (g *gen) authorizationPolicy() {
+	ap := &security.AuthorizationPolicy{Selector: g.selector(), Action: security.AuthorizationPolicy_Action(g.r.Intn(3))}
+	if ap.Action == security.AuthorizationPolicy_AUDIT {
+		ap.Action = security.AuthorizationPolicy_DENY
+	}
+	for i, k := 0, g.r.Intn(3); i < k; i++ {
+		r := &security.Rule{}
+		if g.ch(2, 3) {
+			src := &security.Source{}
+			switch g.r.Intn(4) {
+			case 0:
+				src.Principals = []string{"cluster.local/ns/default/sa/a", "*/sa/b"}
+			case 1:
+				src.Namespaces = []string{g.pick(namespaces)}
+			case 2:
+				src.IpBlocks = []string{"10.1.0.0/16", "10.5.0.1"}
+			case 3:
+				src.RequestPrincipals = []string{"issuer-a/*"}
+				src.NotNamespaces = []string{"ns1"}
+			}
+			r.From = []*security.Rule_From{{Source: src}}
+		}
+		if g.ch(2, 3) {
+			op := &security.Operation{}
+			switch g.r.Intn(4) {
+			case 0:
+				op.Ports = []string{strconv.Itoa(portPool[g.r.Intn(12)].Port)}
+			case 1:
+				op.Paths = []string{"/api/*", "/x"}
+				op.Methods = []string{"GET"}
+			case 2:
+				op.Hosts = []string{"*.foo.com", "a.default.svc.cluster.local"}
+			case 3:
+				op.NotPorts = []string{"9000"}
+				op.NotPaths = []string{"/admin*"}
+			}
+			r.To = []*security.Rule_To{{Operation: op}}
+		}
+		if g.ch(1, 4) {
+			r.When = []*security.Condition{{Key: g.pick([]string{"request.headers[x-user]", "source.ip", "destination.port"}), Values: []string{g.pick([]string{"1", "10.0.0.0/8", "80"})}}}
+			if r.When[0].Key == "source.ip" {
+				r.When[0].Values = []string{"10.0.0.0/8"}
+			} else if r.When[0].Key == "destination.port" {
+				r.When[0].Values = []string{"80"}
+			}
+		}
+		ap.Rules = append(ap.Rules, r)
+	}
+	g.add("AuthorizationPolicy", g.policyNs(), g.name("ap"), ap, nil)
+}
+
+func (g *gen) requestAuthentication() {
+	ra := &security.RequestAuthentication{Selector: g.selector()}
+	for i, k := 0, 1+g.r.Intn(2); i < k; i++ {
+		j := &security.JWTRule{Issuer: "issuer-" + strconv.Itoa(i), Jwks: jwksInline}
+		if g.ch(1, 3) {
+			j.Audiences = []string{"aud1"}
+		}
+		if g.ch(1, 3) {
+			j.FromHeaders = []*security.JWTHeader{{Name: "x-jwt", Prefix: "Bearer "}}
+		}
+		if g.ch(1, 4) {
+			j.ForwardOriginalToken = true
+		}
+		if g.ch(1, 4) {
+			j.OutputClaimToHeaders = []*security.ClaimToHeader{{Header: "x-claim", Claim: "sub"}}
+		}
+		ra.JwtRules = append(ra.JwtRules, j)
+	}
+	g.add("RequestAuthentication", g.policyNs(), g.name("ra"), ra, nil)
+}
+
+func (g *gen) telemetry() {
+	t := &telemetry.Telemetry{Selector: g.selector()}
+	if g.ch(2, 3) {
+		t.AccessLogging = []*telemetry.AccessLogging{{Providers: []*telemetry.ProviderRef{{Name: "envoy"}}}}
+		if g.ch(1, 3) {
+			t.AccessLogging[0].Filter = &telemetry.AccessLogging_Filter{Expression: "response.code >= 400"}
+		}
+	}
+	if g.ch(1, 2) {
+		t.Metrics = []*telemetry.Metrics{{Providers: []*telemetry.ProviderRef{{Name: "prometheus"}},
+			Overrides: []*telemetry.MetricsOverrides{{Match: &telemetry.MetricSelector{MetricMatch: &telemetry.MetricSelector_Metric{Metric: telemetry.MetricSelector_REQUEST_COUNT}},
+				TagOverrides: map[string]*telemetry.MetricsOverrides_TagOverride{"x": {Value: "request.host"}}}}}}
+	}
+	if g.ch(1, 3) {
+		t.Tracing = []*telemetry.Tracing{{RandomSamplingPercentage: wrapperspb.Double(50)}}
+	}
+	g.add("Telemetry", g.policyNs(), g.name("tm"), t, nil)
+}
+
+func (g *gen) wasmPlugin() {
+	w := &extensions.WasmPlugin{Selector: g.selector(), Url: "https://example.org/filter-" + strconv.Itoa(g.r.Intn(2)) + ".wasm",
+		Phase: extensions.PluginPhase(g.r.Intn(4)), Sha256: "a94a8fe5ccb19ba61c4c0873d391e987982fbbd3a94a8fe5ccb19ba61c4c0873"}
+	if g.ch(1, 3) {
+		w.Priority = wrapperspb.Int32(int32(g.r.Intn(3)))
+	}
+	if g.ch(1, 3) {
+		w.Type = extensions.PluginType_NETWORK
+	}
+	if g.ch(1, 3) {
+		w.Match = []*extensions.WasmPlugin_TrafficSelector{{Mode: typev1beta1.WorkloadMode(1 + g.r.Intn(2)), Ports: []*typev1beta1.PortSelector{{Number: 80}}}}
+	}
+	g.add("WasmPlugin", g.policyNs(), g.name("wp"), w, nil)
+}
+
+func (g *gen) proxyConfigObject() {
+	pc := &networkingv1beta1.ProxyConfig{Concurrency: wrapperspb.Int32(2), EnvironmentVariables: map[string]string{"X": "1"}}
+	if g.ch(1, 2) {
+		pc.Selector = g.selector()
+	}
+	g.add("ProxyConfig", g.policyNs(), g.name("pc"), pc, nil)
+}
+
+// a JWKS with one RSA key (the values need not be a real key: generation only embeds the text)
+const jwksInline = `{"keys":[{"kid":"k1","alg":"RS256","kty":"RSA","n":"u1SU1LfVLPHCozMxH2Mo4lgOEePzNm0tRgeLezV6ffAt0gunVTLw7onLRnrq0_IzW7yWR7QkrmBL7jTKEn5u-qKhbwKfBstIs-bMY2Zkp18gnTxKLxoS2tFczGkPLPgizskuemMghRniWaoLcyehkd3qqGElvW_VDL5AaWTg0nLVkjRo9z-40RQzuVaE8AkAFmxZzow3x-VJYKdjykkJ0iT9wCS0DRTXu269V264Vf_3jvredZiKRkgwlL9xNAwxXFg0x_XFw005UWVRIkdgcKWTjpBP2dPwVZ4WWC-9aGVd-Gyn1o0CLelf4rEjGoXbAAEgAqeGUxrcIlbjXfbcmw","e":"AQAB"}]}`
+
 // ---------------------------------------------------------------- one case
 
 func (g *gen) build() {
@@ -1042,6 +1353,12 @@ func (g *gen) build() {
 	}
 	if g.ch(1, 8) {
 		g.opts["h2upgrade"] = "1"
+	}
+	if g.ch(1, 8) {
+		g.opts["statname"] = "1"
+	}
+	if g.ch(1, 8) {
+		g.opts["quic"] = "1"
 	}
 	if g.ch(1, 4) {
 		g.ambient = true
@@ -1062,13 +1379,22 @@ func (g *gen) build() {
 	if g.ch(1, 3) {
 		g.workloadEntry()
 	}
-	for i, k := 0, g.r.Intn(3); i < k; i++ {
+	ngw := g.r.Intn(3)
+	if g.ch(1, 4) {
+		g.crowdPort = []uint32{443, 443, 7070, 9000}[g.r.Intn(4)]
+		ngw = 1 + g.r.Intn(3)
+	}
+	for i := 0; i < ngw; i++ {
 		g.gateway()
 	}
 	for i, k := 0, g.r.Intn(3); i < k; i++ {
 		g.destinationRule()
 	}
-	for i, k := 0, g.r.Intn(5); i < k; i++ {
+	nvs := g.r.Intn(5)
+	if g.crowdPort != 0 && nvs < 2 {
+		nvs = 2
+	}
+	for i := 0; i < nvs; i++ {
 		g.virtualService()
 	}
 	if g.ch(1, 2) {
@@ -1087,7 +1413,23 @@ func (g *gen) build() {
 	if g.ch(1, 3) {
 		g.peerAuthentication()
 	}
+	if g.ch(1, 4) {
+		g.authorizationPolicy()
+	}
+	if g.ch(1, 6) {
+		g.requestAuthentication()
+	}
+	if g.ch(1, 6) {
+		g.telemetry()
+	}
+	if g.ch(1, 8) {
+		g.wasmPlugin()
+	}
+	if g.ch(1, 10) {
+		g.proxyConfigObject()
+	}
 	g.proxies()
+	g.incremental()
 }
 
 // emit writes the case. In the valid stream every object must pass admission validation.
@@ -1123,6 +1465,14 @@ func (g *gen) emit(o *wire.Out, n int) {
 	for _, p := range g.pushes {
 		o.Line(p.line()...)
 	}
+	for _, d := range g.dpushes {
+		l := d.p.line()
+		l[0] = "dpush"
+		for _, k := range d.keys {
+			l = append(l, k[0], wire.Enc(k[1]), wire.Enc(k[2]))
+		}
+		o.Line(l...)
+	}
 }
 
 func genSnapshot(seed uint64, n int, path string) {
@@ -1131,10 +1481,18 @@ func genSnapshot(seed uint64, n int, path string) {
 	defer o.Close()
 	for i := 1; i <= n; i++ {
 		cr := r.Fork()
-		g := newGen(cr, i%3 == 0)
+		g := newGen(cr, i%2 == 0)
 		g.build()
 		if g.malformed {
-			g.mutate()
+			// the k-th malformed case is forced to the k-th mutation of the catalogue (offset by the seed); every fourth
+			// malformed case instead takes the next entry of the short list of mutations that sit on a numeric bound of
+			// validation (priorityMutations), so that each of those is tried several times per run
+			k := i/2 - 1
+			if k%4 == 3 {
+				g.mutate(priorityMutations[(k/4)%len(priorityMutations)] + (k/4/len(priorityMutations)%2)*len(mutationCatalogue))
+			} else {
+				g.mutate(k - k/4 + int(seed%1000)*7)
+			}
 		}
 		g.emit(o, i)
 	}
